@@ -15,13 +15,29 @@ def check(ctx, rep):
     rep.rule("T-PCMP-V", 648, "partial_cmp = Some(cmp)")
     rep.rule("T-HASH-V", 6, "equal versions feed identical data to the hasher (hash reads a subset of what eq compares)")
     n = 0
-    for a, b in V.two_version_worlds():
+    # a function that walks or slices the identifier lists (instead of comparing them whole) is outside the list-token
+    # abstraction: for it the table is rebuilt on structured lists (real lists of numeric identifier tokens)
+    structured = set()
+    for key in (CMP, PCMP, EQ):
+        for a, b in (V.LIST2[3], V.LIST2[6]):
+            wa = ({"major": 0, "minor": 0, "patch": 0}, a, ())
+            wb = ({"major": 0, "minor": 0, "patch": 0}, b, ())
+            if V.run2(prog, key, wa, wb)[0] == "inconclusive":
+                structured.add(key)
+    for key in sorted(structured):
+        rep.analysed_item("%s walks the identifier lists: checked on structured lists (%d list pairs)" % (key, len(V.LISTS_S) ** 2))
+    worlds = [(a, b, False) for a, b in V.two_version_worlds()]
+    if structured:
+        worlds += [(a, b, True) for a, b in V.two_version_worlds_structured()]
+    for a, b, struct in worlds:
         n += 1
-        w = V.world_str(a, b)
+        w = V.world_str_structured(a, b) if struct else V.world_str(a, b)
         ex = "%s vs %s" % (V.example_version(a), V.example_version(b))
         exp = V.ref_cmp(a, b)
         for key, rule in ((CMP, "T-CMP-V"), (PCMP, "T-PCMP-V"), (EQ, "T-EQ-V")):
-            st, r, it = V.run2(prog, key, a, b)
+            if (key in structured) != struct:
+                continue
+            st, r, it = V.run2(prog, key, a, b, structured=struct)
             rep.path((rule, path_sig(it)))
             if st == "inconclusive":
                 rep.inconc("%s: %s" % (rule, r.reason), r.where)
@@ -49,7 +65,7 @@ def check(ctx, rep):
             else:
                 rep.fail(rule, "%s|%s|%s" % (key, rule, w), "ordering %s, SemVer precedence says %s" % (_o(got), _o(exp)),
                          where=where, expected=_o(exp), actual=_o(got), example=ex)
-        if exp == 0:
+        if exp == 0 and not struct:
             sa, fa, ia = V.run_hash(prog, a)
             sb, fb, ib = V.run_hash(prog, b)
             if sa != "ok" or sb != "ok":
